@@ -800,7 +800,17 @@ impl SvgElement {
             "xy", "cxy", "xy1", "xy2", "wh", "rxy", "dxy", "dwh", "dw", "dh", "surround",
             "inside",
         ];
+        // geometry attributes which are not native to the element type (e.g. `cx` on a
+        // rect, `x` on a circle) are likewise replaced once the position is resolved
+        let foreign: &[&str] = match self.name.as_str() {
+            "rect" | "box" | "image" | "foreignObject" => &["cx", "cy", "x1", "y1", "x2", "y2", "r"],
+            "circle" => &["x", "y", "x1", "y1", "x2", "y2", "width", "height", "rx", "ry"],
+            "ellipse" => &["x", "y", "x1", "y1", "x2", "y2", "width", "height", "r"],
+            "line" => &["x", "y", "cx", "cy", "width", "height", "r", "rx", "ry"],
+            _ => &[],
+        };
         PENDING.iter().any(|a| self.has_attr(a))
+            || foreign.iter().any(|a| self.has_attr(a))
             || self.is_connector()
             || (!matches!(self.name.as_str(), "text" | "tspan" | "feOffset")
                 && (self.has_attr("dx") || self.has_attr("dy")))
@@ -1257,11 +1267,13 @@ impl SvgElement {
             "use" => {
                 // Need to determine top-left corner of the target bbox which
                 // may not be (0, 0), and offset by the equivalent amount.
-                if let Some(bbox) = self.get_target_element(ctx)?.bbox()? {
-                    let (dx, dy) = bbox.locspec(LocSpec::TopLeft);
-                    self.set_attr("x", &fstr(x - dx));
-                    self.set_attr("y", &fstr(y - dy));
-                }
+                let target = self.get_target_element(ctx)?;
+                let bbox = target
+                    .bbox()?
+                    .ok_or_else(|| SvgdxError::MissingBoundingBox(target.to_string()))?;
+                let (dx, dy) = bbox.locspec(LocSpec::TopLeft);
+                self.set_attr("x", &fstr(x - dx));
+                self.set_attr("y", &fstr(y - dy));
             }
             _ => {
                 self.set_attr("x", &fstr(x));
